@@ -298,6 +298,11 @@ func (s *streamService) Write(stream streamv1.StreamService_WriteServer) error {
 		if writeEntity.GetMetadata() != nil {
 			metadata = writeEntity.GetMetadata()
 			nodeMetadataSent = make(map[string]bool)
+			// A spec is bound to the metadata it was declared with. A request that
+			// indicates metadata without a spec falls back to the schema definition.
+			spec = nil
+			nodeSpecSent = make(map[string]bool)
+			specLocator = nil
 		} else if isFirstRequest {
 			s.l.Error().Msg("metadata is required for the first request of gRPC stream")
 			s.sendReply(nil, modelv1.Status_STATUS_METADATA_REQUIRED, writeEntity.GetMessageId(), stream)
